@@ -332,7 +332,14 @@ func (sp *Spec) build() (func(), func(x *vsched.Exec) (string, error)) {
 			vsched.GoNamed(fmt.Sprintf("cons%d", ci), func() {
 				r := leaf[ci]
 				n := sp.Consumers[ci].N
+				limit := 4
+				for _, s := range sp.sources(sp.Consumers[ci].R) {
+					limit += len(s)
+				}
 				for n < 0 || len(in.got[ci]) < n {
+					if len(in.got[ci]) > limit {
+						break // more items than every source together holds: the oracle reports them
+					}
 					v, err := r.Recv()
 					if err == io.EOF {
 						in.eof[ci] = true
